@@ -63,6 +63,8 @@ def run_C11(ctx):
     ctx.cov["exhaustive"] = True
     st = ctx.vh("c11-replay", r.out, "selftest")
     ctx.selftest(st["n_mismatch"] == st["cases"], "C11 G: every corrupted verdict is reported")
+    # the same resolver when the chain of open contexts spans an INCLUDE (verdicts and targets; traces are C07's)
+    _include_contexts(ctx, "G:c07-replay(contexts across files)", ["c07:class-", "c07:spec-", "c07:file-", "c07:line-", "c07:panic", "c07:tree-"])
     # V: recorded executions validated by Trace_C11
     ntr, maxlen = (300, 40) if ctx.quick else (6000, 60)
     tp = os.path.join(ctx.scratch, "trace_c11.ndjson")
@@ -169,6 +171,17 @@ def _include_graphs(ctx, tag):
     return r, res
 
 
+def _include_contexts(ctx, label, prefixes=None):
+    """contexts across the file boundary (MC_C07, Variant = "contexts"): an explicit context opened by the includer, implicit URL
+    contexts and methods with their own path in the included file, ')' on either side"""
+    r = ctx.tlc("MC_C07", cfg="MC_C07_ctx.cfg", timeout=3000)
+    res = ctx.vh_isolated("c07-replay", r.out, chunk=20000, timeout=900, sig_prefix="c07")
+    if prefixes is not None:
+        res = _only(res, prefixes)
+    ctx.absorb(res, label)
+    return r
+
+
 def run_C07(ctx):
     ctx.cov["rule"] = ("G: every terminal state of the include-graph model (3 files quick / 4 thorough; root <= 3 tokens, others <= 2, menu: TYPE, a misplaced Body, "
                        "explicit URL, ')', INCLUDE of each file / of a missing file, plus rare names and malformed INCLUDE lines); contents are chosen lazily when a file is first opened. "
@@ -181,6 +194,7 @@ def run_C07(ctx):
     ctx.cov["exhaustive"] = True
     st = ctx.vh("c07-replay", r.out, "selftest")
     ctx.selftest(st["n_mismatch"] >= st["cases"] * 0.95, "C07 G: corrupted verdicts / traces are reported")
+    _include_contexts(ctx, "G:c07-replay(contexts across files)")
 
 
 def run_C14(ctx):
@@ -316,7 +330,7 @@ def run_C19(ctx):
     ctx.absorb(res, "G:c19-replay")
     ctx.cov["exhaustive"] = True
     st = ctx.vh("c19-replay", r.out, "selftest")
-    ctx.selftest(st["n_mismatch"] == st["cases"], "C19 G: inverted expectations are reported")
+    ctx.selftest(st["n_mismatch"] == st["cases"] - st.get("counters", {}).get("earlier-fault", 0), "C19 G: inverted expectations are reported")
 
 
 def run_C16(ctx):
